@@ -1,3 +1,4 @@
+use rusty_linter::core::QBNumberCast;
 use rusty_parser::BuiltInFunction;
 use rusty_variant::Variant;
 
@@ -7,7 +8,8 @@ use crate::interpreter::interpreter_trait::InterpreterTrait;
 
 pub fn run<S: InterpreterTrait>(interpreter: &mut S) -> Result<(), RuntimeError> {
     let v: &Variant = &interpreter.context()[0];
-    let len: i32 = v.byte_size() as i32;
+    // LEN is an INTEGER function: a size that does not fit an INTEGER is an Overflow
+    let len: i32 = (v.byte_size() as i64).try_cast()?;
     interpreter
         .context_mut()
         .set_built_in_function_result(BuiltInFunction::Len, len);
